@@ -247,15 +247,6 @@ mod wire {
                 _ => panic!("field {name} of a non-record"),
             }
         }
-        pub fn field_mut<'a>(&'a mut self, s: &S, name: &str) -> &'a mut V {
-            match (s, self) {
-                (S::Rec(fs), V::Rec(xs)) => {
-                    let i = fs.iter().position(|(n, _)| *n == name).unwrap_or_else(|| panic!("no field {name}"));
-                    &mut xs[i]
-                }
-                _ => panic!("field {name} of a non-record"),
-            }
-        }
         pub fn bytes(&self) -> &[u8] {
             match self {
                 V::B(b) => b,
@@ -279,13 +270,6 @@ mod wire {
                 V::Opt(x) => x.as_deref(),
                 _ => panic!("not an option: {self:?}"),
             }
-        }
-    }
-
-    pub fn field_schema<'a>(s: &'a S, name: &str) -> &'a S {
-        match s {
-            S::Rec(fs) => &fs.iter().find(|(n, _)| *n == name).unwrap_or_else(|| panic!("no field {name}")).1,
-            _ => panic!("field schema of non-record"),
         }
     }
 }
